@@ -58,6 +58,27 @@ def accounted (account : List Row) (e : Entry) : Nat :=
 def covers (census : List Entry) (account : List Row) : Bool :=
   census.all fun e => decide (e.count ≤ accounted account e)
 
+/-- same file, kind and text (the enclosing fn is NOT compared) -/
+def sameSiteF (a b : Entry) : Bool :=
+  a.1 == b.1 && a.2.2.1 == b.2.2.1 && a.2.2.2.1 == b.2.2.2.1
+
+/-- occurrences of the site of `e` in the whole FILE, per the census -/
+def censusTotalF (census : List Entry) (e : Entry) : Nat :=
+  ((census.filter fun c => sameSiteF e c).map fun c => c.count).sum
+
+/-- occurrences of the site of `e` in the whole FILE the account has rows for -/
+def accountedF (account : List Row) (e : Entry) : Nat :=
+  ((account.filter fun r => sameSiteF e r.1).map fun r => r.1.count).sum
+
+/-- File-level coverage — what the census THEOREMS use: for every (file, kind, text) the census
+counts, over all functions of the file, at most as many occurrences as the account has rows for.
+Moving code between functions of one file (extracting or inlining a helper) therefore keeps the
+theorem; a new text, a new kind of site in a file, or one more occurrence of a known text in the
+file breaks it.  (`covers` above is the stricter per-function form; it is kept for the account's
+own hygiene lemmas.) -/
+def coversF (census : List Entry) (account : List Row) : Bool :=
+  census.all fun e => decide (censusTotalF census e ≤ accountedF account e)
+
 /-- the census entries that are NOT accounted for (for diagnosis when a census theorem stops
 building: `#eval Tera.PanicCensus.uncovered Tera.Generated.panicCensusAdd Tera.PanicCensus.accountAdd`) -/
 def uncovered (census : List Entry) (account : List Row) : List Entry :=
